@@ -108,7 +108,7 @@ func C12(r *eng.Run) {
 
 	// A2: values built without the binary codec marshal to IEEE-canonical bytes
 	t0 = time.Now()
-	cs := Shapes(r.Thorough())
+	cs := Shapes(true)
 	var exps []int
 	for q := ref.MinQ; q <= ref.MaxQ; q++ {
 		if r.Thorough() || q < ref.MinQ+40 || q > ref.MaxQ-40 || (q > -50 && q < 50) || q%97 == 0 {
